@@ -835,6 +835,46 @@ pub fn p_gc() -> ProgSpace {
     }
 }
 
+/// GC-after family: a value V that survived a value-preserving restore (`(a (q . 2) (c X Y))` — X is returned,
+/// Y is >= 1 KiB of garbage) is then CONSUMED by an operator whose accounting may depend on V's representation
+/// (the restore re-creates small-valued heap atoms as in-place atoms).
+pub fn p_gc_after() -> ProgSpace {
+    let xs = [
+        "(concat (q . 1) (q . 0x00ff))",
+        "(concat (q . 1) (q . 2))",
+        "(concat (q . 0x00) (q . 0x80))",
+        "(concat (q . 0x7f) (q . 0x00) (q . 0x00))",
+        "(concat (q . 3) (q . 0xffffff))",
+        "(concat (q . 4) (q . 0x000000))",
+        "(substr (concat 2 2) (q . 0) (q . 2))",
+        "(sha256 2)",
+        "(concat 5 5)",
+    ];
+    let mut consumers: Vec<String> = vec![];
+    for s in 0..=4 {
+        for e in s..=4 {
+            consumers.push(format!("(substr V (q . {s}) (q . {e}))"));
+        }
+        consumers.push(format!("(substr V (q . {s}))"));
+    }
+    for c in ["(concat V V)", "(concat V (q . 1))", "(sha256 V)", "(strlen V)", "(+ V (q . 1))", "(c V V)", "(= V V)", "(logand V V)", "(concat (substr V (q . 1) (q . 2)) V)"] {
+        consumers.push(c.to_string());
+    }
+    let mut progs: Vec<Vec<u8>> = vec![];
+    for x in xs {
+        let v = format!("(a (q . 2) (c {x} (concat 2 2)))");
+        for c in &consumers {
+            progs.push(parse_prog(&c.replace('V', &v)).ser());
+        }
+    }
+    let total = progs.len() as u64;
+    ProgSpace {
+        name: format!("GC-after({} survivors x {} consumers)", xs.len(), consumers.len()),
+        total,
+        get: Box::new(move |i| (tree::deser(&progs[i as usize]).unwrap().0, gc_env())),
+    }
+}
+
 // ---------------------------------------------------------------------
 // P1b: operators over big operands reached through environment paths
 pub fn big_env() -> T {
